@@ -357,7 +357,48 @@ def cubic_distance_test(ctx, rng):
     ctx.notes["cubic_distance_test"] = "sampled test, not a proof"
 
 
+def notdef_section(ctx, rng):
+    """a caller-supplied .notdef (the notdefGlyph option; the UFO has none of its own) is an outline like any other: in the
+    TrueType font it must come out exactly as the same outline does when compiled as an ordinary glyph of that font
+    (converted, reversed to the TrueType direction, rounded)"""
+    import ufo2ft
+    from fontTools.ttLib import TTFont
+    for i in range(ctx.budget(6, 30)):
+        lib = ["ufoLib2", "defcon"][i % 2]
+        # (lines and quadratics only: the supplied glyph joins the glyph set after the pre-processor has run, so a cubic outline
+        # passed through this internal option is not converted and compileTTF rejects it -- observation O12, not demanded here)
+        desc = gen_component_font(rng, kinds=("line", "qcurve"), classes=["identity"], max_depth=1)
+        simple = [g["name"] for g in desc["glyphs"] if g["contours"] and not g["components"]]
+        if not simple:
+            continue
+        nm = simple[i % len(simple)]
+        how = ["compileTTF", "compileInterpolatableTTFs", "compileTTF"][i % 3]
+        case = {"font": jsonable(desc), "lib": lib, "notdefGlyph": nm, "function": how, "level": "notdefGlyph option"}
+        ctx.count(); ctx.klass("notdefGlyph option/" + how); ctx.nontriv(("notdef", i, ctx.scale))
+        try:
+            f = build_font(desc, lib)
+            assert ".notdef" not in f
+            if how == "compileTTF":
+                tts = [ufo2ft.compileTTF(f, notdefGlyph=f[nm], useProductionNames=False)]
+            else:
+                tts = list(ufo2ft.compileInterpolatableTTFs([f, build_font(desc, lib)], notdefGlyph=f[nm], useProductionNames=False))
+        except Exception as e:
+            ctx.spec_failure(case, "raised %s: %s\n%s" % (type(e).__name__, e, traceback.format_exc()[-1000:]))
+            continue
+        for tt in tts:
+            buf = io.BytesIO(); tt.save(buf); buf.seek(0); tt = TTFont(buf)
+            a, b = read_glyf(tt, ".notdef"), read_glyf(tt, nm)
+            # same closed contours in the same direction; the start point may differ (the pre-processor's reversal rotates a
+            # contour to its first on-curve point first, the copy of the supplied glyph does not)
+            rot = lambda c: min(tuple(c[k:] + c[:k]) for k in range(len(c))) if c else ()
+            if [rot(list(c)) for c in a["contours"]] != [rot(list(c)) for c in b["contours"]] or a["components"] != b["components"]:
+                ctx.spec_failure(case, "the supplied .notdef outline compiles to %r, the same outline as the ordinary glyph %r to %r" % (
+                    str(a)[:200], nm, str(b)[:200]))
+                break
+
+
 def explore(ctx):
+    notdef_section(ctx, ctx.subrng("notdef"))
     import ufo2ft
     from fontTools.ttLib import TTFont
     from ufo2ft.preProcessor import TTFPreProcessor
